@@ -42,6 +42,12 @@ type Transport struct {
 	RReenter  bool
 	Dead      bool // after a fault every call fails
 	Chunk     int  // when > 0, a Read returns at most this many bytes
+	WriteOnlyFault bool // a write fault leaves the read side healthy (only writes fail from then on)
+	WDead     bool
+	CloseGate *bool // when set, Close parks (after failing pending I/O) until *CloseGate
+	CloseErr  error // what Close returns
+	InClose   bool
+	CloseRet  bool // a Close call has returned
 }
 
 func (t *Transport) Feed(b []byte) {
@@ -98,6 +104,10 @@ func (t *Transport) Write(p []byte) (int, error) {
 	if t.Closed {
 		return 0, ErrTransportClosed
 	}
+	if t.WriteOnlyFault && (t.WDead || (t.FaultWrite != 0 && t.Writes >= t.FaultWrite)) {
+		t.WDead = true
+		return 0, ErrTransportFault
+	}
 	if t.Dead || (t.FaultWrite != 0 && t.Writes >= t.FaultWrite) {
 		t.Dead = true
 		t.CanRead = true
@@ -114,7 +124,13 @@ func (t *Transport) Close() error {
 	if t.Gate != nil {
 		*t.Gate = true
 	}
-	return nil
+	if t.CloseGate != nil {
+		t.InClose = true
+		vrt.WaitFor(t.CloseGate)
+		t.InClose = false
+	}
+	t.CloseRet = true
+	return t.CloseErr
 }
 
 var _ drpc.Transport = (*Transport)(nil)
